@@ -57,6 +57,9 @@ func resolveDo(c *Ctx, p *core.Program) *doRoles {
 			switch {
 			case core.ReachesCallee(cl, isClientMethod("packet"), 3):
 				r.Receiver = cl
+			case core.ReachesCallee(cl, func(f *types.Func) bool { return f.Name() == "SetReadDeadline" }, 3) && !core.ReachesCallee(cl, isWriterFlush, 2):
+				// the receive loop by what it does: it arms the read deadline (and does not flush)
+				r.Receiver = cl
 			case core.ReachesCallee(cl, isClientMethod("Close"), 4):
 				r.Watch = cl
 			case core.ReachesCallee(cl, isWriterFlush, 4):
